@@ -87,10 +87,10 @@ class Run(object):
             if pred is None:
                 return e
             try:
-                if eval(pred, {'__builtins__': {'len': len, 'str': str, 'int': int, 'float': float, 'abs': abs,
-                                                'any': any, 'all': all, 'isinstance': isinstance, 'min': min,
-                                                'max': max, 'set': set, 'tuple': tuple, 'sorted': sorted}},
-                        dict(witness)):
+                g = {'__builtins__': {'len': len, 'str': str, 'int': int, 'float': float, 'abs': abs, 'any': any, 'all': all,
+                                      'isinstance': isinstance, 'min': min, 'max': max, 'set': set, 'tuple': tuple, 'sorted': sorted}}
+                g.update(witness)        # as globals: names used inside generator expressions must resolve
+                if eval(pred, g):
                     return e
             except Exception:
                 continue
